@@ -112,6 +112,7 @@ REG = Registry()
 DEFINE_SQRT_QUOTIENTS = [False]
 BOOL_TO_NUM = ["fork"]
 MINMAX_FORK = [False]
+IGNORE_DETACH = [False]  # C16: second run in which detach / no_grad / .data do NOT clear derivatives
 
 
 def new_registry():
@@ -333,7 +334,15 @@ def t_exp(u):
             _enclose(e, Fraction(math.exp(float(c0))))
             factors.append(e)
     for c, a in items:
-        factors.append(_rat_power(_exp_atom(a), c))
+        if c.denominator <= 12:
+            factors.append(_rat_power(_exp_atom(a), c))
+        else:
+            # a non-simple rational coefficient (e.g. 1/alpha of LogTanh): keep it inside the atom, sign-normalised
+            if a.op == "app" and a.args[0] == "log" and False:
+                pass
+            e = tm.app("exp", [tm.scale(abs(c), a)])
+            REG.add_axiom(e, tm.gt(e, tm.ZERO))
+            factors.append(e if c > 0 else tm.power(e, -1))
     if not factors:
         return tm.ONE
     return tm.mul(*factors)
@@ -630,6 +639,8 @@ class S:
         return self
 
     def nodual(self):
+        if IGNORE_DETACH[0]:
+            return self
         return S(self.t) if self.d else self
 
     # ---- python protocol ----
@@ -1111,3 +1122,71 @@ class FS(S):
 
 def fp_var(name, prec="F32"):
     return FS(tm.fvar(name, prec))
+
+
+# ---- comparisons of an exp/log atom with a constant ---------------------------------------------------
+# exp and log are abstracted (atoms + axioms); a branch condition  exp(u) <= c  or  log(v) <= c  with a constant c
+# is decidable exactly through monotonicity:  exp(u) <= c  <=>  u <= log c.  log c / exp c enter as fresh
+# variables with a rigorous 40-digit enclosure (decimal arithmetic), so the lemma is sound in the reals.
+
+def _dec_enclosure(fn, c):
+    from decimal import Decimal, getcontext, localcontext
+
+    with localcontext() as ctx:
+        ctx.prec = 80
+        d = Decimal(c.numerator) / Decimal(c.denominator)
+        v = d.ln() if fn == "log" else d.exp()
+        fr = Fraction(v)
+    w = abs(fr) * Fraction(1, 10 ** 40) + Fraction(1, 10 ** 60)
+    return fr - w, fr + w
+
+
+def threshold_lemmas(cond):
+    """Add (as axioms of the atom) the monotonicity lemma for every  a*atom + c0 {<=,<,==} 0  inside cond."""
+    for node in tm.walk([cond]):
+        if node.op not in ("le0", "lt0", "eq0"):
+            continue
+        c0, items = tm.linear_form(node.args[0])
+        kpow = 1
+        if len(items) == 1 and items[0][1].op == "app":
+            a, at = items[0]
+        else:
+            # a rational function of a single exp/log atom whose numerator is linear in it (tanh, sigmoid, 1/exp ...)
+            from . import poly
+
+            if len(tm.walk([node])) > 80:
+                continue
+            try:
+                r = poly.Expander().rat(node.args[0]).cancel()
+            except (poly.TooBig, RecursionError, ZeroDivisionError):
+                continue
+            monos = list(r.num.keys())
+            aids = {m_[0][0] for m_ in monos if m_}
+            pows = {m_[0][1] for m_ in monos if m_}
+            if len(aids) != 1 or len(pows) != 1 or any(len(m_) > 1 for m_ in monos):
+                continue
+            (aid,) = aids
+            (kpow,) = pows
+            at = poly._ATOMS[aid]
+            if kpow != 1 and not (at.op == "app" and at.args[0] == "exp"):
+                continue
+            a, c0 = Fraction(r.num[((aid, kpow),)]), Fraction(r.num.get((), 0))
+        if at.op != "app" or at.args[0] not in ("exp", "log") or a == 0:
+            continue
+        c = -c0 / a
+        f, u = at.args[0], at.args[1]
+        if f == "exp" and c <= 0:
+            continue
+        if f == "log" and abs(c) > 200:
+            continue
+        key = ("thr", at, c, kpow)
+        if key in REG.memo:
+            continue
+        REG.memo[key] = True
+        lo, hi = _dec_enclosure("log" if f == "exp" else "exp", c)
+        L = tm.var("thr!%d" % len([k for k in REG.memo if isinstance(k, tuple) and k and k[0] == "thr"]), "R")
+        cc = tm.const(c)
+        REG.add_axiom(at, tm.and_(tm.lt(tm.const(lo), L), tm.lt(L, tm.const(hi))))
+        for rel in (tm.le, tm.lt):
+            p, q = rel(tm.power(at, kpow), cc), rel(tm.scale(Fraction(kpow), u), L)
+            REG.add_axiom(at, tm.and_(tm.or_(tm.not_(p), q), tm.or_(tm.not_(q), p)))
